@@ -221,6 +221,30 @@ def run(ctx):
             except Exception as e:  # noqa: BLE001
                 violation(PROP, "EnvSpec.compatibility", f"raised {type(e).__name__}",
                           {"requires_python": rp, "impl": impl, "python_tags": p2, "abi_tags": a2, "error": str(e)[:100]})
+        # specs *derived* from this one with dataclasses.replace (state must not travel with the copy): the same
+        # tag pairs are asked again on the derived object, whose own answer the monitors check
+        import dataclasses
+
+        from dep_logic.specifiers import parse_version_specifier as _P
+        from dep_logic.tags import Implementation as _Impl
+
+        for _ in range(3 if full else 1):
+            other_rp = rnd.choice(pool)
+            try:
+                new_rp = _P(other_rp)
+                if new_rp.is_empty():
+                    continue
+                derived = [dataclasses.replace(spec, requires_python=new_rp)]
+                other_impl = rnd.choice(IMPLS)
+                derived.append(dataclasses.replace(spec, implementation=None if other_impl is None else _Impl(*other_impl)))
+            except Exception:  # noqa: BLE001
+                continue
+            ctx.shape("derived-spec", len(derived))
+            for dspec in derived:
+                for pt in rnd.sample(pts, min(len(pts), 12)):
+                    for abi in ("none", "abi3", f"cp{pt[2:]}", f"cp{pt[2:]}t"):
+                        spec.compatibility([pt], [abi], ["any"])
+                        dspec.compatibility([pt], [abi], ["any"])
         if len(ctx.samples) < 4:
             ctx.sample({"requires_python": rp, "implementation": impl, "example": ["cp310", "abi3", spec.compatibility(["cp310"], ["abi3"], ["any"])]})
     ctx.current_case = None
